@@ -111,3 +111,97 @@ def first_diff(a, b, path=""):
     if a != b:
         return "%s: %r vs %r" % (path, a, b)
     return None
+
+
+# ---------------------------------------------------------------------------------------------- EDIF (C03)
+def _props(x):
+    out = []
+    for p in x.get("EDIF.properties", []) or []:
+        v = p.get("value")
+        out.append((p.get("identifier"), p.get("original_identifier"), type(v).__name__, v))
+    return out
+
+
+def _pin_key(p):
+    if isinstance(p, BaseOuterPin):
+        ip = p.inner_pin
+        return (p.instance.name, ip.port.name, list(ip.port.pins).index(ip))
+    return (None, p.port.name, list(p.port.pins).index(p))
+
+
+def canon_edif(n, with_identifiers=True, array_1wide=True):
+    """Exactly what C03 lists: libraries, cells, ports (order, direction, width, array-ness), instances (name, cell,
+    library, properties), nets (name, width, base index, per bit the ORDERED pins), top design, original names
+    (name + identifier).  Port base index and library/cell order are not part of it."""
+    t = n.top_instance
+    out = {"name": n.name, "identifier": n.get("EDIF.identifier") if with_identifiers else None,
+           "top": None if t is None else (t.reference.name, t.reference.library.name, t.name), "libs": {}}
+    for l in n.libraries:
+        cells = {}
+        for d in l.definitions:
+            ports = [(p.name, p.get("EDIF.identifier") if with_identifiers else None, p.direction.name, len(p.pins),
+                      p.is_array if (array_1wide or len(p.pins) != 1) else None) for p in d.ports]
+            insts = {i.name: (i.get("EDIF.identifier") if with_identifiers else None, i.reference.name,
+                              i.reference.library.name, _props(i)) for i in d.children}
+            nets = {}
+            for c in d.cables:
+                nets[c.name] = (c.get("EDIF.identifier") if with_identifiers else None, len(c.wires),
+                                c.lower_index if (len(c.wires) > 1 or c.is_array) else 0,
+                                [[_pin_key(p) for p in w.pins] for w in c.wires])
+            cells[d.name] = {"identifier": d.get("EDIF.identifier") if with_identifiers else None, "ports": ports,
+                             "insts": insts, "nets": nets}
+        out["libs"][l.name] = {"identifier": l.get("EDIF.identifier") if with_identifiers else None, "cells": cells}
+    return out
+
+
+def edif_inventory(n):
+    """What the EDIF composer is expected to put into the file for netlist n (after compose assigned identifiers),
+    in the vocabulary of read_sexp.design_of: keyed by identifier."""
+    def nd(x):
+        ident = x["EDIF.identifier"]
+        return (ident, x.name if (x.name != ident or x.get("EDIF.rename", False)) else None)
+    libs = {}
+    for l in n.libraries:
+        cells = {}
+        for d in l.definitions:
+            ports = [(nd(p), len(p.pins), bool(p.is_array), {"IN": "INPUT", "OUT": "OUTPUT", "INOUT": "INOUT"}.get(p.direction.name, "UNDEFINED"))
+                     for p in d.ports]
+            insts = {i["EDIF.identifier"]: (nd(i), i.reference["EDIF.identifier"], i.reference.library["EDIF.identifier"],
+                                            [(pp.get("identifier"), type(pp.get("value")).__name__, pp.get("value")) for pp in i.get("EDIF.properties", []) or []])
+                     for i in d.children}
+            nets = {}
+            for c in d.cables:
+                for k, w in enumerate(c.wires):
+                    if len(c.wires) == 1 and not c.is_array:
+                        key = nd(c)
+                    else:
+                        idx = c.lower_index + k
+                        key = ("%s_%d_" % (c["EDIF.identifier"], idx), "%s[%d]" % (c.name, idx))
+                    joined = []
+                    for p in w.pins:
+                        if isinstance(p, BaseOuterPin):
+                            ip = p.inner_pin
+                            joined.append((p.instance["EDIF.identifier"], ip.port["EDIF.identifier"],
+                                           list(ip.port.pins).index(ip) if ip.port.is_array else None))
+                        else:
+                            joined.append((None, p.port["EDIF.identifier"], list(p.port.pins).index(p) if p.port.is_array else None))
+                    nets[key[0]] = (key, joined)
+            cells[d["EDIF.identifier"]] = {"name": nd(d), "ports": ports, "insts": insts, "nets": nets}
+        libs[l["EDIF.identifier"]] = {"name": nd(l), "cells": cells}
+    t = n.top_instance
+    return {"name": nd(n), "libs": libs, "design": (nd(t), t.reference["EDIF.identifier"], t.reference.library["EDIF.identifier"])}
+
+
+def sexp_inventory(design):
+    """read_sexp.design_of(...) converted to the same shape as edif_inventory."""
+    libs = {}
+    for L in design["libs"]:
+        cells = {}
+        for C in L["cells"]:
+            ports = [(p["name"], p["width"], p["array"], p["dir"]) for p in C["ports"]]
+            insts = {i["name"][0]: (i["name"], i["cell"], i["lib"], [(p[0][0], {"string": "str", "integer": "int", "boolean": "bool"}.get(p[1], p[1]), p[2]) for p in i["props"]])
+                     for i in C["insts"]}
+            nets = {nn["name"][0]: (nn["name"], nn["joined"]) for nn in C["nets"]}
+            cells[C["name"][0]] = {"name": C["name"], "ports": ports, "insts": insts, "nets": nets}
+        libs[L["name"][0]] = {"name": L["name"], "cells": cells}
+    return {"name": design["name"], "libs": libs, "design": design["design"]}
